@@ -16,6 +16,9 @@ typedef struct {
 
 	z_stream strm;
 	bool compress;
+
+	/* decompressor only: input consumed since the last end of stream */
+	bool mid_stream;
 } xfrm_stream_gzip_t;
 
 static const int zlib_action[] = {
@@ -36,9 +39,11 @@ static int process_data(xfrm_stream_t *stream, const void *in,
 	if (flush_mode < 0 || flush_mode >= XFRM_STREAM_FLUSH_COUNT)
 		flush_mode = XFRM_STREAM_FLUSH_NONE;
 
-	while ((in_size > 0 || (gzip->compress &&
-				flush_mode == XFRM_STREAM_FLUSH_FULL)) &&
+	while ((in_size > 0 || (flush_mode == XFRM_STREAM_FLUSH_FULL &&
+				(gzip->compress || gzip->mid_stream))) &&
 	       out_size > 0) {
+		bool at_eof = (in_size == 0);
+
 		gzip->strm.next_in = (void *)in;
 		gzip->strm.avail_in = in_size;
 
@@ -59,12 +64,23 @@ static int process_data(xfrm_stream_t *stream, const void *in,
 		in_size -= diff;
 		*in_read += diff;
 
+		if (diff > 0)
+			gzip->mid_stream = true;
+
 		diff = out_size - gzip->strm.avail_out;
 		out = (char *)out + diff;
 		out_size -= diff;
 		*out_written += diff;
 
+		/* the input ended in the middle of a compressed stream */
+		if (!gzip->compress && at_eof && diff == 0 &&
+		    ret != Z_STREAM_END) {
+			return XFRM_STREAM_ERROR;
+		}
+
 		if (ret == Z_STREAM_END) {
+			gzip->mid_stream = false;
+
 			if (gzip->compress) {
 				ret = deflateReset(&gzip->strm);
 			} else {
